@@ -169,6 +169,14 @@ def check (spec0):
              , ('all-obj', [['all', t2]],               [absno [(t2, k + 1)] for k in range (len (blocks [t2]))])
              , ('all',     [['all']],                   list (range (1, N + 1)))
              ]
+    # one load attached by several requests (every attachment counts, the load itself is registered once)
+    allof = lambda t: [absno [(t, k + 1)] for k in range (len (blocks [t]))]
+    t3 = tags [(tags.index (t2) + 1) % len (tags)]
+    forms += [ ('obj+all-obj', [[k1, t1], ['all', t2]], [absno [(t1, k1)]] + allof (t2))
+             , ('abs+all',     [[absno [(t1, k1)]], ['all']], [absno [(t1, k1)]] + list (range (1, N + 1)))
+             ]
+    if t3 != t2:
+        forms.append (('all-obj+all-obj', [['all', t2], ['all', t3]], allof (t2) + allof (t3)))
     zdiag = {}
     for name, att, want in forms:
         if not want:
